@@ -38,6 +38,20 @@ PROPS = {
          "protobuf marshalling of equal responses is byte-identical within one binary"],
         facts=["app"],
     ),
+    "C10": app(
+        "C10",
+        ["C10_refused_untouched", "C10_checktx_outsider", "C10_members_invariant", "C10_outsider_no_effect",
+         "C10_noninterference", "C10_total_lastConfig", "C10_total_outcome"],
+        "Theorems (Lean): malformed / foreign-chain / replayed transactions return code 1 and leave the state identical; the "
+        "mempool refuses non-members; on every reachable state a transaction of an address in no accepted keyper set gets a "
+        "non-zero code, no events, and changes only its own (signer, nonce) record; states differing only in one sender's "
+        "nonce records answer every later call of other senders identically (simulation over whole histories); the two "
+        "partial operations on this path (LastConfig, Candidates[idx]) stay inside their domain. The real app is compared "
+        "with the model on generated histories; refused transactions of every class are injected at random positions of "
+        "valid histories and the twin runs compared call by call, with recover() around every ABCI call.",
+        ["panics inside base64 / signature recovery / protobuf decoding are exercised by the driver, not covered by a theorem",
+         "a batch-config message carries fewer than 2^63 addresses (Sized)"],
+    ),
     "C11": app(
         "C11",
         ["C11_invariant", "C11_accept", "C11_other_calls", "C11_one_vote", "C11_nonce_once", "C11_restart", "C11_started"],
